@@ -119,6 +119,31 @@ func run() (code int) {
 			return simkit.ExitHarness
 		}
 		return simkit.Replay(c, args[1], o, true)
+	case "shard":
+		if len(args) < 7 {
+			return simkit.ExitHarness
+		}
+		c := registry.Get(args[1])
+		if c == nil {
+			return simkit.ExitHarness
+		}
+		seed, _ := strconv.ParseUint(args[4], 10, 64)
+		from, _ := strconv.Atoi(args[5])
+		to, _ := strconv.Atoi(args[6])
+		scratch, err := simkit.ScratchRoot()
+		if err != nil {
+			return simkit.ExitHarness
+		}
+		defer os.RemoveAll(scratch)
+		return simkit.RunShard(c, args[2], args[3], seed, from, to, simkit.Env{AtlasBin: o.AtlasBin, Scratch: scratch})
+	case "detop":
+		if registry.Detop == nil || len(args) < 3 {
+			return simkit.ExitHarness
+		}
+		a, _ := strconv.ParseUint(args[1], 10, 64)
+		b, _ := strconv.ParseUint(args[2], 10, 64)
+		fmt.Println(registry.Detop(a, b))
+		return 0
 	case "hashes":
 		if len(args) < 4 {
 			return simkit.ExitHarness
